@@ -40,7 +40,15 @@ def run_spec(spec: dict) -> list[dict]:
     evs = rec.finish()
     for i, e in enumerate(evs):
         e["i"] = i + 1
-    return {"name": spec.get("name", ""), "status": status, "info": info, "events": evs, "spec": spec}
+    out = {"name": spec.get("name", ""), "status": status, "info": info, "events": evs, "spec": spec}
+    loaded = []
+    for k, lr in enumerate(rec.loaded_runs):
+        for i, e in enumerate(lr["events"]):
+            e["i"] = i + 1
+        loaded.append({"name": spec.get("name", "") + f"_loaded{k}", "status": lr["status"], "info": "", "events": lr["events"],
+                       "spec": spec, "dump_event": lr["dump_event"]})
+    out["loaded"] = loaded
+    return out
 
 
 if __name__ == "__main__":
